@@ -292,10 +292,15 @@ impl<'de> De<'de> {
         entries: &'de [(String, Node)],
         declared_len: usize,
         positional_limit: Option<usize>,
+        declared_fields: Option<&'static [&'static str]>,
         v: V,
     ) -> Result<V::Value, SimError> {
         self.env.step(RStep::Open, self.depth)?;
-        let order = self.env.delivery(self.path, entries.len());
+        let mut order = self.env.delivery(self.path, entries.len());
+        let filter = match declared_fields {
+            Some(f) if self.env.cfg.filter_fields && self.env.cfg.keyed() => Some(f),
+            _ => None,
+        };
         {
             let mut st = self.env.st.borrow_mut();
             for d in &order {
@@ -304,7 +309,21 @@ impl<'de> De<'de> {
                     Deliver::Unknown(i) => 0x100 | *i as u64,
                 });
             }
-            st.opened.push((self.path, order.clone()));
+            // For the oracle: what the plan delivered. In filter mode injected entries are taken
+            // out (the medium legitimately withholds them), but a *real* entry withheld because the
+            // reader's own `fields` list does not name it stays listed as delivered: if that makes
+            // the read fail, it is the code's inconsistency, not a fault.
+            let seen: Vec<Deliver> = match filter {
+                Some(_) => order.iter().copied().filter(|d| matches!(d, Deliver::Orig(_))).collect(),
+                None => order.clone(),
+            };
+            st.opened.push((self.path, seen));
+        }
+        if let Some(f) = filter {
+            order.retain(|d| match d {
+                Deliver::Orig(i) => f.contains(&entries[*i as usize].0.as_str()),
+                Deliver::Unknown(_) => false,
+            });
         }
         match self.env.cfg.framing {
             Framing::Positional => {
@@ -338,6 +357,15 @@ impl<'de> De<'de> {
     }
 
     fn any<V: Visitor<'de>>(self, positional_limit: Option<usize>, v: V) -> Result<V::Value, SimError> {
+        self.any_with(positional_limit, None, v)
+    }
+
+    fn any_with<V: Visitor<'de>>(
+        self,
+        positional_limit: Option<usize>,
+        declared_fields: Option<&'static [&'static str]>,
+        v: V,
+    ) -> Result<V::Value, SimError> {
         match self.node {
             Node::Num { kind, bits } => self.visit_num(*kind, *bits, v),
             Node::Str(s) => self.visit_text(s, v),
@@ -366,7 +394,7 @@ impl<'de> De<'de> {
                 v.visit_newtype_struct(De { node: inner, ..self })
             }
             Node::Struct { entries, declared_len, .. } => {
-                self.record(entries, *declared_len, positional_limit, v)
+                self.record(entries, *declared_len, positional_limit, declared_fields, v)
             }
             Node::Map { entries, .. } => {
                 self.env.step(RStep::Open, self.depth)?;
@@ -470,7 +498,7 @@ impl<'de> de::Deserializer<'de> for De<'de> {
             Node::Newtype { inner, .. } => inner,
             n => n,
         };
-        De { node, ..self }.any(Some(fields.len()), v)
+        De { node, ..self }.any_with(Some(fields.len()), Some(fields), v)
     }
 
     fn deserialize_enum<V: Visitor<'de>>(
